@@ -172,7 +172,7 @@ def run_property(prop, tier='quick', repo='/repo', program=None, write=True, qui
             violations.append(o)
     st = None
     if selftest is not None and tier == 'thorough':
-        st = selftest(prop, program)
+        st = selftest(prop, program, clean=not violations)
     wall = time.time() - t0
     if not quiet:
         for o, k in knowns:
